@@ -38,7 +38,7 @@ class LinkNative(Contract):
     def native_cases(self, tier, rng):
         for rx, tx in EM_PAIRS:
             for direction in ("rx.transmitters=tx", "tx.receivers=rx"):
-                for scenario in ("edit-both-sides", "reopen-edit-unread", "relink", "relink-from-the-other-side", "copy", "components-then-partner-edit"):
+                for scenario in ("edit-both-sides", "reopen-edit-unread", "relink", "relink-from-the-other-side", "relink-there-and-back", "copy", "components-then-partner-edit"):
                     yield {"family": "em", "rx": rx, "tx": tx, "direction": direction, "scenario": scenario}
                 # linking by assigning the survey description with the identifiers given as text
                 for form in ("plain", "braces"):
@@ -151,6 +151,19 @@ class LinkNative(Contract):
                     bad = both_ids(rx2, tx, "after a second receiver entity took the transmitters over")
                 if bad:
                     return f"{bad} ({case})"
+            if case["scenario"] == "relink-there-and-back":
+                # the entity is taken over by a second partner and then claimed back by the first, each time from the partner's side
+                tx2 = TX.create(ws, vertices=_verts(off=5.0), name="tx2")
+                rx2 = RX.create(ws, vertices=_verts(off=6.0), name="rx2")
+                if case["direction"].startswith("rx"):
+                    tx2.receivers = rx
+                    tx.receivers = rx
+                else:
+                    rx2.transmitters = tx
+                    rx.transmitters = tx
+                bad = both_ids(rx, tx, "after the pair was taken over by a second partner and claimed back by the first")
+                if bad:
+                    return f"{bad} ({case})"
             if case["scenario"] == "copy":
                 rx_c = rx.copy()
                 tx_c = rx_c.transmitters
@@ -175,6 +188,11 @@ class LinkNative(Contract):
                 comp = a_rx.components or {}
                 if sorted(c.name for c in comp.get("dBdt", [])) != ["c1", "c2"]:
                     return f"the receivers' component 'dBdt' no longer resolves its two channels after an edit through the transmitters ({case})"
+        if case["scenario"] == "relink-there-and-back":
+            with Workspace(path, mode="r") as ws:
+                bad = both_ids(ws.get_entity(uid_rx)[0], ws.get_entity(uid_tx)[0], "after re-opening (the pair had been taken over and claimed back)")
+                if bad:
+                    return f"{bad} ({case})"
         if case["scenario"] in ("edit-both-sides", "reopen-edit-unread"):
             with Workspace(path, mode="r+") as ws:
                 # fetch one side only and edit before ever reading its partner
@@ -272,7 +290,9 @@ class LinkNative(Contract):
             rx = RX.create(ws, vertices=np.vstack(verts), name="rx")
             tx = TX.create(ws, vertices=np.vstack(loops), cells=np.vstack(cells), name="tx")
             tx.tx_id_property = tx.parts + 1
-            rx.tx_id_property = np.hstack(ids)
+            rx_ids = np.hstack(ids)
+            rx_ids[[3, 14]] = 0  # two stations that refer to no loop ("Unknown")
+            rx.tx_id_property = rx_ids
             rx.transmitters = tx
             loop_verts = np.vstack(loops)
         mode = "r+"
@@ -284,7 +304,7 @@ class LinkNative(Contract):
                 rx = RX.create(ws, vertices=np.vstack(verts), name="rx")
                 tx = TX.create(ws, vertices=loop_verts, cells=np.vstack(cells), name="tx")
                 tx.tx_id_property = tx.parts + 1
-                rx.tx_id_property = np.hstack(ids)
+                rx.tx_id_property = rx_ids
                 rx.transmitters = tx
             else:
                 rx, tx = ws.get_entity("rx")[0], ws.get_entity("tx")[0]
@@ -306,6 +326,15 @@ class LinkNative(Contract):
                     return f"{what}: {new_rx.n_vertices} receivers / {new_tx.n_vertices} loop vertices copied, expected {n_rx} / {n_tx}"
                 if rx.metadata["EM Dataset"].get("Transmitters") != tx.uid or tx.metadata["EM Dataset"].get("Receivers") != rx.uid:
                     return f"{what}: the original pair was re-linked by the copy"
+                # each copied receiver refers to the copy of the loop its original refers to -- and to none where the original refers to none
+                src_ids = np.asarray(rx.tx_id_property.values)
+                new_ids = np.asarray(new_rx.tx_id_property.values)
+                src_kept = src_ids if len(new_ids) == len(src_ids) else (src_ids[src_ids != 0] if len(new_ids) == 18 else src_ids[10:])
+                if len(new_ids) != len(src_kept) or not np.array_equal(new_ids == 0, src_kept == 0):
+                    return f"{what}: receivers that refer to no loop: original {np.where(src_kept == 0)[0].tolist()}, copy {np.where(new_ids == 0)[0].tolist()} (ids {new_ids.tolist()})"
+                for a_, b_ in ((i_, j_) for i_ in range(len(new_ids)) for j_ in range(i_)):
+                    if (new_ids[a_] == new_ids[b_]) != (src_kept[a_] == src_kept[b_]):
+                        return f"{what}: receivers {b_} and {a_} {'share' if src_kept[a_] == src_kept[b_] else 'do not share'} a loop in the original but not so in the copy (ids {new_ids.tolist()})"
                 return None
 
             bad = None
@@ -314,7 +343,8 @@ class LinkNative(Contract):
                 bad = pair_ok(new_rx, new_rx.transmitters if new_rx is not None else None, 20, 8, "rx.copy()")
             elif case["scenario"] == "copy-transmitters":
                 new_tx = tx.copy()
-                bad = pair_ok(new_tx.receivers if new_tx is not None else None, new_tx, 20, 8, "tx.copy()")
+                # from the loops' side the partner is the receivers that refer to one of the copied loops (18 of the 20)
+                bad = pair_ok(new_tx.receivers if new_tx is not None else None, new_tx, 18, 8, "tx.copy()")
             elif case["scenario"] == "masked-copy-other-workspace":
                 other = Workspace.create(path.replace("s.geoh5", "other.geoh5"))
                 mask = np.zeros(20, dtype=bool)
